@@ -11,12 +11,12 @@ FORMULAS = {
     'C06': ['HostSurvives', 'SoftOnceInTask'],
     'C08': ['HostSurvives', 'SignalledRunsCallback', 'TerminateStopsRefill'],
     'C09': ['HostSurvives', 'RecycleHarmless', 'LossSparesOthers', 'IdleLossHarmless', 'DiscardNoHoldUp'],
-    'C10': ['HostSurvives', 'SendFailSlot', 'HardSlotBack'],
+    'C10': ['HostSurvives', 'SendFailSlot', 'HardSlotBack', 'DiscardSlotBack'],
     'C11': ['HostSurvives', 'BudgetAckResets', 'BudgetStops'],
 }
 KNOWN = {'C04': [('TolImapLoss', ['LossReported'])], 'C01': [('TolImapLoss', ['LossReported'])],
-         'C10': [('TolSendFailSlot', ['SendFailSlot'])], 'C09': [('TolDiscardCredit', ['DiscardNoHoldUp'])]}
-CONSTS = dict(Slack10='50', TolImapLoss='TRUE', TolSendFailSlot='TRUE', TolDiscardCredit='TRUE')
+         'C10': [('TolSendFailSlot', ['SendFailSlot']), ('TolLateReadySlot', ['DiscardSlotBack'])], 'C09': [('TolDiscardCredit', ['DiscardNoHoldUp'])]}
+CONSTS = dict(Slack10='50', TolImapLoss='TRUE', TolSendFailSlot='TRUE', TolDiscardCredit='TRUE', TolLateReadySlot='TRUE')
 
 
 def scenarios(pid, thorough):
@@ -47,7 +47,8 @@ def scenarios(pid, thorough):
         S.append(dict(kind='loss', procs=1, job='apply', how=['signal', 9], closing=True))
     if pid == 'C10':
         S.append(dict(kind='sendfail'))
-        S += [dict(kind='hard', procs=2, where='pool', putlocks=True),
+        S += [dict(kind='discard', quota=0, procs=2, putlocks=True),
+              dict(kind='hard', procs=2, where='pool', putlocks=True),
               dict(kind='hard', procs=2, where='job', putlocks=True, stubborn=True, leader=True)]
     if pid == 'C08':
         S += [dict(kind='signal_one', target='busy'), dict(kind='signal_one', target='idle'),
@@ -83,7 +84,7 @@ def scenarios(pid, thorough):
         for job in (('map', 'imap', 'imapu') if thorough else ('imap',)):
             S.append(dict(kind='idleloss', job=job))
         S.append(dict(kind='loss', procs=2, job='apply', how=['signal', 9]))
-        S.append(dict(kind='discard', quota=1))
+        S.append(dict(kind='discard', quota=1, putlocks=False))
     return S
 
 
